@@ -499,4 +499,141 @@ theorem newDeviceResult_nil_iff (f : S_devicefinder_Default) (p : Option S_agd_P
 
 theorem isProfileDBNotFound_eq (err : Option String) (a b : Bool) : isProfileDBNotFound err a b = (a || b) := rfl
 
+/-! ## Around `Find`: `Wrap`, `isBlockedByAccess`, `DeviceData`, `newDeviceFinder` (round 3b) -/
+
+/-- Is the model outcome "handed to the next stages"? -/
+def isNext : Agd.Device.Served → Bool
+  | .next _ => true
+  | _ => false
+
+/-- `isBlockedByAccess`: global address, global host, then the access list of the profile that
+`DeviceData()` returns — and of no other. -/
+theorem isBlockedByAccess_eq (mw : S_ratelimitmw_Middleware) (ri : Option S_agd_RequestInfo) (host name : String)
+    (ip hostB prof : Bool) (dd : Option S_agd_Profile × Option S_agd_Device) :
+    (isBlockedByAccess mw ri host name ip hostB dd prof).1 = (ip || hostB || (dd.1.isSome && prof)) := by
+  unfold isBlockedByAccess
+  cases ip <;> cases hostB <;> cases prof <;> cases h : dd.1 <;> simp [h]
+
+/-- The profile's access list is consulted only when `DeviceData()` returned a profile, and the access
+check never returns the pooled request information (`Put` belongs to `Wrap` alone). -/
+theorem isBlockedByAccess_profile_only (mw : S_ratelimitmw_Middleware) (ri : Option S_agd_RequestInfo)
+    (host name : String) (ip hostB prof : Bool) (dd : Option S_agd_Profile × Option S_agd_Device) :
+    let tr := names (isBlockedByAccess mw ri host name ip hostB dd prof).2
+    ("IsBlocked" ∈ tr → dd.1.isSome = true ∧ ip = false ∧ hostB = false) ∧ "Put" ∉ tr := by
+  unfold isBlockedByAccess names
+  cases ip <;> cases hostB <;> cases prof <;> cases h : dd.1 <;> simp [h]
+
+/-- The complete order of effects of the handler, in every run. -/
+def wrapTrace (port : Int) (locErr blocked cont : Bool) : List String :=
+  if port = 0 then ["OnRateLimited"]
+  else ["location", "newRequestInfo", "isBlockedByAccess"] ++
+    (if blocked then []
+     else "handleDeviceResult" ::
+       (if !cont then [] else if locErr then ["processLocationErr"]
+        else ["ContextWithRequestInfo", "serveWithRatelimiting"])) ++ ["Put"]
+
+theorem wrap_trace (mw : S_ratelimitmw_Middleware) (port : Int) (lc : Option S_geoip_Location × Option S_dnsmsg_ECS × Option String)
+    (ri : S_agd_RequestInfo) (blocked : Bool) (hd : Bool × Option String) (le next : Option String) (cx : AbsPtr) :
+    (Wrap_handler mw () port () lc (some ri) blocked hd le cx next).map (fun x => names x.2) =
+      some (wrapTrace port lc.2.2.isSome blocked hd.1) := by
+  unfold Wrap_handler wrapTrace
+  by_cases h0 : port = 0
+  · simp [h0, names]
+  · cases blocked <;> cases hc : hd.1 <;> cases hl : lc.2.2 <;> simp [h0, hc, hl, names]
+
+/-- The handler that `Wrap` returns is the model's `wrap`: with `blocked` the result of
+`isBlockedByAccess` and `cont` that of `handleDeviceResult` (and a well-formed ECS option), the request
+information reaches the context and the rate limiter / next handler exactly when the model says `.next`. -/
+theorem wrap_tr (port : Int) (g : Agd.Device.Gate) (r : Agd.Device.Result) (hp : g.port0 = decide (port = 0)) :
+    let tr := wrapTrace port false (g.blockedIP || g.blockedHost || Agd.Device.profileBlocked g r) (Agd.Device.continues r)
+    ("serveWithRatelimiting" ∈ tr ↔ isNext (Agd.Device.wrap g r) = true) ∧
+    ("ContextWithRequestInfo" ∈ tr ↔ isNext (Agd.Device.wrap g r) = true) := by
+  unfold wrapTrace Agd.Device.wrap
+  by_cases h0 : port = 0
+  · simp [h0, hp, isNext]
+  · have hp' : g.port0 = false := by simp [hp, h0]
+    cases hb : (g.blockedIP || g.blockedHost || Agd.Device.profileBlocked g r)
+    · cases r <;> simp [h0, hp', hb, isNext, Agd.Device.continues]
+    · simp [h0, hp', hb, isNext]
+
+/-- The pooled request information is returned exactly once, as the last thing, in every run that took
+one (access-blocked, device error, malformed ECS, served); a request from port 0 takes none and runs no
+look-up at all. -/
+theorem wrap_put_once (port : Int) (locErr blocked cont : Bool) :
+    (port = 0 → wrapTrace port locErr blocked cont = ["OnRateLimited"]) ∧
+    (port ≠ 0 → (wrapTrace port locErr blocked cont).count "Put" = 1 ∧
+      (wrapTrace port locErr blocked cont).getLast? = some "Put" ∧
+      (wrapTrace port locErr blocked cont).take 2 = ["location", "newRequestInfo"]) := by
+  constructor
+  · intro h; simp [wrapTrace, h]
+  · intro h
+    cases locErr <;> cases blocked <;> cases cont <;> simp [wrapTrace, h] <;> decide
+
+/-- `RequestInfo.DeviceData`: a profile and device come out only of a `*DeviceResultOK` — its own —
+and for every other result both are nil. -/
+theorem deviceData_only_ok (ri : S_agd_RequestInfo) (res : Option S_agd_DeviceResultOK) (ok : Bool) :
+    RequestInfo_DeviceData ri (res, ok) =
+      if ok then res.map (fun x => (x.Profile, x.Device)) else some (none, none) := by
+  unfold RequestInfo_DeviceData
+  cases ok <;> cases res <;> simp
+
+/-- `dnssvc.newDeviceFinder`: a server group with profiles disabled gets the (non-nil) empty finder and
+the default finder is not even constructed; otherwise exactly the default finder. -/
+theorem newDeviceFinder_spec (c : Option S_dnssvc_HandlersConfig) (g : S_agd_ServerGroup) (s : Option S_agd_Server)
+    (nd : Option S_devicefinder_Default) :
+    newDeviceFinder c (some g) s nd =
+      some (if g.ProfilesEnabled then (nd.isSome, [("NewDefault", ["_"])]) else (true, [])) := by
+  unfold newDeviceFinder
+  cases h : g.ProfilesEnabled <;> simp [h]
+
+/-! ## Where the authentication flags come from (backend and file-cache converters) -/
+
+/-- `backendpb.AuthenticationSettings.toInternal`: no settings ⇒ authentication disabled (and not
+DoH-only); settings present ⇒ enabled, DoH-only as sent; an unknown password-hash kind is an error. -/
+theorem pbAuth_toInternal_spec (x : Option S_backendpb_AuthenticationSettings) (ph : AbsPtr × Option String) :
+    pbAuth_toInternal x ph = some (match x with
+      | none => (some { Enabled := false, DoHAuthOnly := false }, none)
+      | some a => if ph.2.isSome then (none, some "fmt.Errorf(\"password hash: %w\", err)")
+                  else (some { Enabled := true, DoHAuthOnly := a.DohAuthOnly }, none)) := by
+  unfold pbAuth_toInternal
+  cases x <;> cases h : ph.2 <;> simp [h]
+
+theorem fcAuth_toInternal_spec (x : Option S_filecachepb_AuthenticationSettings) (ph : AbsPtr × Option String) :
+    fcAuth_toInternal x ph = some (match x with
+      | none => (some { Enabled := false, DoHAuthOnly := false }, none)
+      | some a => if ph.2.isSome then (none, some "fmt.Errorf(\"password hash: %w\", err)")
+                  else (some { Enabled := true, DoHAuthOnly := a.DohAuthOnly }, none)) := by
+  unfold fcAuth_toInternal
+  cases x <;> cases h : ph.2 <;> simp [h]
+
+/-- Discharges the former assumption "the backend never sets DoHAuthOnly without Enabled": whatever
+the backend or the file cache delivers, converted settings that are DoH-only are enabled. -/
+theorem converted_dohOnly_implies_enabled (ph : AbsPtr × Option String) (st : S_agd_AuthSettings) :
+    (∀ x, pbAuth_toInternal x ph = some (some st, none) → st.DoHAuthOnly = true → st.Enabled = true) ∧
+    (∀ x, fcAuth_toInternal x ph = some (some st, none) → st.DoHAuthOnly = true → st.Enabled = true) := by
+  constructor <;> intro x h hd
+  · rw [pbAuth_toInternal_spec] at h
+    cases x with
+    | none => simp at h; subst h; simp at hd
+    | some a => cases hh : ph.2 <;> simp [hh] at h; subst h; rfl
+  · rw [fcAuth_toInternal_spec] at h
+    cases x with
+    | none => simp at h; subst h; simp at hd
+    | some a => cases hh : ph.2 <;> simp [hh] at h; subst h; rfl
+
+/-- The password checker of converted settings is never nil when there is no error (no hash ⇒ the
+allow-all checker), so `authenticate` cannot panic on it. -/
+theorem dohPassword_nonnil (isNil isBcrypt : Bool) (h : Option S_agdpasswd_PasswordHashBcrypt) (hh : h.isSome = true) :
+    (pbDohPasswordToInternal isNil isBcrypt h).2 = none → (pbDohPasswordToInternal isNil isBcrypt h).1 = true := by
+  unfold pbDohPasswordToInternal
+  cases isNil <;> cases isBcrypt <;> simp [hh]
+
+/-- The file cache keeps the two flags of every settings value the converters can produce. -/
+theorem fcAuth_roundtrip (st : S_agd_AuthSettings) (ph : AbsPtr) (hok : st.DoHAuthOnly = true → st.Enabled = true) :
+    (fcAuthToProtobuf (some st)).bind (fun pb => fcAuth_toInternal pb (ph, none)) = some (some st, none) := by
+  unfold fcAuthToProtobuf
+  cases st with
+  | mk en d =>
+    cases en <;> cases d <;> simp_all [fcAuth_toInternal_spec]
+
 end Agd.Tie.TrC03
